@@ -62,10 +62,10 @@ def extractor_for(name):
 
 # ------------------------------------------------------------------ builders --
 def zip_bytes(members):
-    """members: [(name, data, flags, method_override or None)] ; flags / method patched into local + central headers."""
+    """members: [(name, data, flags, method_override or None[, declared_size])] ; patched into local + central headers."""
     buf = io.BytesIO()
     with zipfile.ZipFile(buf, "w", zipfile.ZIP_STORED) as z:
-        for name, data, _f, _m in members:
+        for name, data, *_rest in members:
             z.writestr(name, data)
     raw = bytearray(buf.getvalue())
     pos, idx = 0, 0
@@ -74,7 +74,10 @@ def zip_bytes(members):
         if p < 0:
             break
         lho = struct.unpack_from("<I", raw, p + 42)[0]
-        _n, _d, flags, method = members[idx]
+        _n, _d, flags, method = members[idx][:4]
+        if len(members[idx]) > 4 and members[idx][4] is not None:      # declared uncompressed size (central + local header)
+            struct.pack_into("<I", raw, p + 24, members[idx][4])
+            struct.pack_into("<I", raw, lho + 22, members[idx][4])
         if flags:
             struct.pack_into("<H", raw, p + 8, struct.unpack_from("<H", raw, p + 8)[0] | flags)
             struct.pack_into("<H", raw, lho + 6, struct.unpack_from("<H", raw, lho + 6)[0] | flags)
@@ -511,6 +514,22 @@ def sweep():
                     return fail("read_archive(zip)", inp, "encrypted (0 results before)", str(res))
                 if not flagged and res[0] == "encrypted":
                     return fail("read_archive(zip)", inp, "not rejected as encrypted (no member has flag bit 0)", str(res))
+    #     ... and an unflagged member that cannot be inflated in front of a flagged one does not turn the archive into a
+    #     merely `failed` one: every flag is looked at before anything is read or given up on
+    for method in (9, 99, 93):
+        mem = [("first.txt", b"0123456789abcdef" * 3, 0, method), ("secret.txt", b"0123456789abcdef" * 3, 1, None), ("a.txt", b"plain text", 0, None)]
+        res = run(read_archive, zip_bytes(mem), "x.zip")
+        if res[0] != "encrypted" or res[1] != 0:
+            return fail("read_archive(zip)", {"members": [m_[0] for m_ in mem], "flagged": "secret.txt", "first.txt": f"no flag, compression method field {method}"},
+                        "encrypted (0 results before)", str(res))
+    # 3c. ... and whatever its size fields say (an empty member, a member declared larger than any in-memory limit)
+    for label, data_, size in (("empty", b"", None), ("declared 3 GiB", b"0123456789abcdef", 3 << 30), ("declared 4 GiB - 1", b"0123456789abcdef", 0xFFFFFFFF - 1)):
+        for pos in (0, 1):
+            mem = [("a.txt", b"plain text", 0, None)]
+            mem.insert(pos, ("secret.txt", data_, 1, None, size))
+            res = run(read_archive, zip_bytes(mem), "x.zip")
+            if res[0] != "encrypted" or res[1] != 0:
+                return fail("read_archive(zip)", {"members": [m_[0] for m_ in mem], "flagged": "secret.txt", "size_of_flagged_member": label}, "encrypted (0 results before)", str(res))
     res = run(read_archive, zip_bytes([("d/", b"", 1, None), ("d/a.txt", b"plain", 0, None)]), "x.zip")      # flag on a directory entry only
     if res[0] == "encrypted":
         return fail("read_archive(zip)", {"members": "directory entry with flag bit 0, plain file"}, "not encrypted", str(res))
